@@ -67,12 +67,12 @@ VARIABLES reg, cfg,          \* the store: registry entries, config documents
           nops, nloads, ncrash,
           abs, written, committed,            \* ghosts: committed configuration per db; complete configs ever written; pays committed
           chg, wr, solo, cleanStart,          \* ghosts per node used by RejectedIsNoop / Recoverable
-          tainted,                            \* ghost: databases hit by an accepted deviation (their NoLostAck is waived)
+          tainted, devs,                      \* ghosts: databases hit by an accepted deviation (their NoLostAck is waived); names of the deviations accepted so far
           okLoad, okOwnLoad, okRej, okRec, okAck,  \* verdicts of the checks made at operation return
           hist
 impl  == <<reg, cfg, loc>>
 env   == <<nops, nloads, ncrash>>
-ghost == <<abs, written, committed, chg, wr, solo, cleanStart, tainted, okLoad, okOwnLoad, okRej, okRec, okAck>>
+ghost == <<abs, written, committed, chg, wr, solo, cleanStart, tainted, devs, okLoad, okOwnLoad, okRej, okRec, okAck>>
 vars  == <<impl, env, ghost, hist>>
 view  == <<impl, env, ghost>>
 
@@ -230,15 +230,17 @@ EffFinalizeWrite(n) ==         \* pc = fwr
       ELSE IF L.att >= MaxAttempts THEN Fin(L, "err_finalize")
       ELSE Cont([L EXCEPT !.att = @ + 1, !.pc = "freg"]))
 
-(* the storage operations node n may perform next (more than one only where a load picks the next database) *)
+(* the storage operations node n may perform next (more than one only where a load picks the next database, and where
+   the wait may already be over after its first read: the timer runs from before that read) *)
+Fin1(n) == IF TimeoutOK(n, loc[n].cur) THEN {FALSE, TRUE} ELSE {FALSE}
 Effs(n) ==
   LET p == loc[n].pc  Nx == DBs \cup {"-"} IN
   CASE p = "rreg"  -> {EffReadReg(n, x) : x \in {y \in Nx : ReadRegNxtOK(n, y)}}
-    [] p = "rcfg1" -> {EffReadCfg(n, FALSE, x) : x \in {y \in Nx : NxtOK(loc[n], y)}}
+    [] p = "rcfg1" -> {EffReadCfg(n, f, x) : f \in Fin1(n), x \in {y \in Nx : NxtOK(loc[n], y)}}
     [] p = "rcfg2" -> IF TimeoutOK(n, loc[n].cur) THEN {EffReadCfg(n, TRUE, x) : x \in {y \in Nx : NxtOK(loc[n], y)}} ELSE {}
     [] p = "touch" -> {EffTouch(n)}
     [] p = "wrb"   -> {EffWriteRollback(n)}
-    [] p = "wd1"   -> {EffWaitDelete(n, FALSE)}
+    [] p = "wd1"   -> {EffWaitDelete(n, f) : f \in Fin1(n)}
     [] p = "wd2"   -> IF TimeoutOK(n, loc[n].cur) THEN {EffWaitDelete(n, TRUE)} ELSE {}
     [] p = "wddel" -> {EffWaitDeleteRemove(n)}
     [] p = "wdrb"  -> {EffWaitDeleteRollback(n)}
@@ -254,7 +256,7 @@ Init ==
   /\ nops = 0 /\ nloads = 0 /\ ncrash = 0
   /\ abs = EmptyCfgs /\ written = {} /\ committed = {}
   /\ chg = [n \in Nodes |-> FALSE] /\ wr = [n \in Nodes |-> FALSE] /\ solo = [n \in Nodes |-> FALSE]
-  /\ cleanStart = [n \in Nodes |-> FALSE] /\ tainted = {}
+  /\ cleanStart = [n \in Nodes |-> FALSE] /\ tainted = {} /\ devs = {}
   /\ okLoad = TRUE /\ okOwnLoad = TRUE /\ okRej = TRUE /\ okRec = TRUE /\ okAck = TRUE
   /\ hist = <<>>
 
@@ -277,16 +279,19 @@ LoadAtomicAt(cfgs, rseen, wrt) ==      \* every loaded config is a complete writ
   \A d \in DBs : /\ cfgs[d] # NoCfg => [db |-> d, c |-> cfgs[d]] \in wrt /\ Loadable(rseen[d]) /\ SameVer(cfgs[d], rseen[d])
                  /\ Loadable(rseen[d]) => cfgs[d] # NoCfg
 LoadExclusiveAt(cfgs) == \A d1, d2 \in DBs : d1 # d2 => cfgs[d1].colls \cap cfgs[d2].colls = {}
-RecoverableAt(res, o, vis, r) ==       \* a follow-up run alone ends in success or a rejection the state justifies
+RecoverableStrict(res, o, vis, r) ==   \* a follow-up run alone ends in success or a rejection the state justifies
   \/ res = "ok"
   \/ res = "exists"   /\ o.t = "I" /\ vis[o.db] # NoCfg
   \/ res = "notfound" /\ o.t \in {"U", "D"} /\ vis[o.db] = NoCfg
   \/ res \in {"conflict", "conflict_inprogress"} /\ o.t \in {"I", "U"}       \* the collection really has an owner
        /\ (OtherConflict(r, o.db, o.colls) \/ \E d \in DBs \ {o.db} : vis[d].colls \cap o.colls # {})
-  (* named deviation StalePreviousVersion: a previous-version marker left by an update that died after its config
-     write but before its finalize step is never removed by anybody; requests for the released collections are
-     rejected as "update in progress" although no database owns them *)
-  \/ AllowStalePrev /\ res = "conflict_inprogress" /\ o.t \in {"I", "U"} /\ PrevConflicts(r, o.db, o.colls) # {}
+(* named deviation StalePreviousVersion: a previous-version marker left by an update that died after its config
+   write but before its finalize step is never removed by anybody; requests for the released collections are
+   rejected as "update in progress" although no database owns them *)
+StalePrevAt(res, o, vis, r) ==
+  /\ ~RecoverableStrict(res, o, vis, r)
+  /\ AllowStalePrev /\ res = "conflict_inprogress" /\ o.t \in {"I", "U"} /\ PrevConflicts(r, o.db, o.colls) # {}
+RecoverableAt(res, o, vis, r) == RecoverableStrict(res, o, vis, r) \/ StalePrevAt(res, o, vis, r)
 
 (* ---- ghost part of a storage step (kind = "Ret": the logged return of a call, in the trace specification);
    o = the operation node n is running; out = what a load returned ---- *)
@@ -313,6 +318,9 @@ GhostStep(n, o, kind, d, ok, val, res, out) ==
             ELSE IF commitD THEN [abs EXCEPT ![o.db] = NoCfg]
             ELSE abs
   /\ tainted' = tnt2
+  /\ devs' = devs \cup (IF devD2 THEN {"OrphanDeleteDestroysLive"} ELSE {})
+                  \cup (IF devD3 THEN {"DeleteFinalizeRemovesRecreated"} ELSE {})
+                  \cup (IF res # "" /\ solo[n] /\ StalePrevAt(res, o, vis2, reg') THEN {"StalePreviousVersion"} ELSE {})
   /\ written' = wrt2 /\ committed' = com2
   /\ chg' = [chg EXCEPT ![n] = chg2] /\ wr' = [wr EXCEPT ![n] = wr2]
   /\ solo' = [m \in Nodes |-> solo[m] /\ m = n]
@@ -328,11 +336,11 @@ GhostStart(n) ==
   /\ chg' = [chg EXCEPT ![n] = FALSE] /\ wr' = [wr EXCEPT ![n] = FALSE]
   /\ solo' = [m \in Nodes |-> m = n /\ AllIdle]
   /\ cleanStart' = [cleanStart EXCEPT ![n] = Clean(reg, cfg)]
-  /\ UNCHANGED <<abs, written, committed, tainted, okLoad, okOwnLoad, okRej, okRec, okAck>>
+  /\ UNCHANGED <<abs, written, committed, tainted, devs, okLoad, okOwnLoad, okRej, okRec, okAck>>
 
 GhostCrash(n) ==
   /\ solo' = [solo EXCEPT ![n] = FALSE]
-  /\ UNCHANGED <<abs, written, committed, chg, wr, cleanStart, tainted, okLoad, okOwnLoad, okRej, okRec, okAck>>
+  /\ UNCHANGED <<abs, written, committed, chg, wr, cleanStart, tainted, devs, okLoad, okOwnLoad, okRej, okRec, okAck>>
 
 Step(n, a, o, res) == hist' = Append(hist, [n |-> n, a |-> a, o |-> o, res |-> res])
 
